@@ -57,3 +57,259 @@ def exec_simplify(spec, env):
     for f in forms:
         outs.append(rt.outcome(lambda: f.at(p)))
     return outs
+
+
+# ------------------------------------------------------------------------------------------ histories (C09, C10)
+
+def pool_A(E, env):
+    x, y = E.Variable("x"), E.Variable("y")
+    s = E.Reciprocal(E.Multiply(x, y))                 # shared sub-expression object
+    return {"s": s, "e1": E.Add(E.Sine(s), x), "e2": E.Multiply(E.Logarithm(s), y), "e3": E.NthRoot(s, 3)}
+
+
+def pool_B(E, env):
+    x, y = E.Variable("x"), E.Variable("y")
+    s = E.Add(x, y)
+    return {"s": s, "e1": E.Multiply(s, s), "e2": E.Power(s, x), "e3": E.Divide(x, s)}
+
+
+def pool_C(E, env):
+    # structurally equal but separately constructed operands
+    x, y = E.Variable("x"), E.Variable("y")
+    a1, a2 = E.Add(x, y), E.Add(x, y)
+    return {"s": a1, "e1": E.Multiply(a1, a2), "e2": E.Add(E.NthPower(x, 3), E.NthPower(x, 3), y),
+            "e3": E.Multiply(E.Exponential(E.Multiply(x, y)), E.Exponential(E.Multiply(x, y)))}
+
+
+def pool_D(E, env):
+    x, y = E.Variable("x"), E.Variable("y")
+    u = E.Minus(x, E.Constant(1))
+    return {"s": u, "e1": E.Logarithm(u), "e2": E.Multiply(E.Reciprocal(u), y), "e3": E.NthPower(E.Add(E.Multiply(x, y), E.Constant(1)), 3)}
+
+
+def pool_E(E, env):
+    # simplifier-heavy: nested sums/products, roots of roots, shared inner nodes
+    x, y = E.Variable("x"), E.Variable("y")
+    r = E.NthRoot(x, 2)
+    a = E.Add(x, y)
+    return {"s": r, "e1": E.Add(E.NthRoot(r, 3), r), "e2": E.Exponential(E.Add(a, E.Constant(1))), "e3": E.Multiply(y, E.Logarithm(x)),
+            "a": a}
+
+
+def pool_F(E, env):
+    # inside the region of known finding D3 (even root of an even power)
+    x, y = E.Variable("x"), E.Variable("y")
+    s = E.NthPower(x, 2)
+    return {"s": s, "e1": E.Multiply(E.NthRoot(s, 2), y), "e2": E.NthRoot(E.Multiply(s, E.NthPower(y, 2)), 4), "e3": E.Add(E.NthRoot(s, 2), y)}
+
+
+def pool_G(E, env):
+    # one-variable expressions (so that a bare number is accepted in place of a point)
+    x = E.Variable("x")
+    s = E.Add(x, E.Constant(1))
+    return {"s": s, "e1": E.NthPower(s, 2), "e2": E.Sine(x), "e3": E.Multiply(s, x), "v": x}
+
+
+POOLS = {"G": pool_G, "F": pool_F, "A": pool_A, "B": pool_B, "C": pool_C, "D": pool_D, "E": pool_E}
+CREATORS = ("mk", "mkexpr")
+
+
+def _symq(n, d):
+    """exact rational constants print as SYMQ(n, d) under the symbolic engine (never in a concrete run)"""
+    try:
+        import fractions
+        from symreal import core
+        return core.SymReal(core.Q(fractions.Fraction(n, d)))
+    except ImportError:
+        return n / d
+
+
+def clone(obj, sm, E):
+    """a freshly built structural copy: the printed constructor call evaluated with the public names in scope"""
+    scope = {k: getattr(E, k) for k in E.__all__}
+    scope.update({k: getattr(sm, k) for k in sm.__all__})
+    scope["SYMQ"] = _symq
+    return eval(repr(obj), {"__builtins__": {}}, scope)
+
+
+class Shown:
+    """an expression handed out by an operation: compared with the library's own ==, printed for the record"""
+
+    def __init__(self, x):
+        self.x = x
+
+    def __repr__(self):
+        return repr(self.x)
+
+
+def _show(x):
+    return Shown(x)
+
+
+def run_op(op, objs, pts, sm, E):
+    k = op[0]
+    if k == "at":
+        return rt.outcome(lambda: objs[op[1]].at(pts[op[2]]))
+    if k == "fwd":
+        return rt.outcome(lambda: sm.Partial(objs[op[1]], "x").at(pts[op[2]]))
+    if k == "fwd_y":
+        return rt.outcome(lambda: sm.Partial(objs[op[1]], E.Variable("y")).at(pts[op[2]]))
+    if k == "rev":
+        return rt.outcome(lambda: sm.LocatedDifferential(objs[op[1]], pts[op[2]]).component("x"))
+    if k == "early":
+        return rt.outcome(lambda: sm.Partial(objs[op[1]], "x", compute_early=True).at(pts[op[2]]))
+    if k == "diff_early":
+        return rt.outcome(lambda: sm.Differential(objs[op[1]], compute_early=True).at(pts[op[2]]).component("y"))
+    if k == "asexp":
+        return rt.outcome(lambda: _show(sm.Partial(objs[op[1]], "x").as_expression()))
+    if k == "asexp_rev":
+        return rt.outcome(lambda: _show(sm.Differential(objs[op[1]], compute_early=True).component("y").as_expression()))
+    if k == "norm":
+        return rt.outcome(lambda: _show(objs[op[1]]._normalize()))
+    if k == "embed":
+        t = objs[op[1]]
+        return rt.outcome(lambda: [E.Minus(t, E.Variable("zz")), E.Divide(E.Variable("zz"), t), E.Power(t, E.Variable("zz")),
+                                   E.Add(E.Variable("zz"), t), E.Multiply(t, E.Variable("zz"), t), E.NthRoot(t, 3), t + t, t * t, -t] and 0)
+    if k == "mk":
+        kind, t = op[2], objs[op[3]]
+
+        def mk():
+            objs[op[1]] = {"partial": lambda: sm.Partial(t, "x"), "partial_early": lambda: sm.Partial(t, "x", compute_early=True),
+                           "diff": lambda: sm.Differential(t), "diff_early": lambda: sm.Differential(t, compute_early=True),
+                           "partial_y": lambda: sm.Partial(t, "y")}[kind]()
+            return 0
+        return rt.outcome(mk)
+    if k == "q":
+        o = objs[op[1]]
+        if isinstance(o, sm.Differential):
+            return rt.outcome(lambda: o.component_at("x", pts[op[2]]))
+        return rt.outcome(lambda: o.at(pts[op[2]]))
+    if k == "qasexp":
+        o = objs[op[1]]
+        if isinstance(o, sm.Differential):
+            return rt.outcome(lambda: _show(o.component("x").as_expression()))
+        return rt.outcome(lambda: _show(o.as_expression()))
+    if k == "mkexpr":
+        # an expression handed out by an earlier call is used as an operand of a new expression
+        how, t = op[2], objs[op[3]]
+
+        def mk():
+            if how == "recip_of_asexp":
+                objs[op[1]] = E.Reciprocal(sm.Partial(t, "x").as_expression())
+            elif how == "neg_of_norm":
+                objs[op[1]] = E.Negation(t._normalize())
+            elif how == "sum_with_asexp":
+                objs[op[1]] = E.Add(sm.Partial(t, "y").as_expression(), E.Variable("y"))
+            elif how == "prod_with_norm":
+                objs[op[1]] = E.Multiply(t._normalize(), E.NthPower(E.Variable("y"), 2))
+            return 0
+        return rt.outcome(mk)
+    raise KeyError(k)
+
+
+def _points(spec, env, sm):
+    pts = {}
+    for pn in ("p", "q"):
+        pts[pn] = sm.Point(x=env[pn + "_x"], y=env[pn + "_y"])
+    pts["m"] = sm.Point(x=env["q_x"])                      # lacks y: CoordinateMissing part-way
+    pts["p2"] = sm.Point(y=env["p_y"], x=env["p_x"])       # equal to p, a different object, coordinates written in another order
+    return pts
+
+
+@concrete.register("history")
+def exec_history(spec, env):
+    """run spec['hist'] on a pool with shared sub-expression objects, then the LAST operation again on a freshly built pool
+    (only the object-creating operations of the history are repeated there).  outs = history outcomes + [fresh outcome]"""
+    sm, E = rt.ns()
+    pts = _points(spec, env, sm)
+    objs = POOLS[spec["pool"]](E, env)
+    outs = [run_op(op, objs, pts, sm, E) for op in spec["hist"]]
+    fobjs = POOLS[spec["pool"]](E, env)
+    for op in spec["hist"][:-1]:
+        if op[0] in CREATORS:
+            run_op(op, fobjs, pts, sm, E)
+            if op[0] == "mkexpr" and op[1] in fobjs:
+                fobjs[op[1]] = clone(fobjs[op[1]], sm, E)      # a never-used, freshly built equal copy
+    outs.append(run_op(spec["hist"][-1], fobjs, pts, sm, E))
+    a, b = outs[-2], outs[-1]
+    if a["kind"] == b["kind"] == "value" and isinstance(a["value"], Shown) and isinstance(b["value"], Shown):
+        # expressions: equal by the library's own structural ==
+        x, y = a["value"].x, b["value"].x
+        outs.append(rt.outcome(lambda: bool(x == y) and bool(y == x)))
+    else:
+        outs.append({"kind": "value", "value": None})
+    return outs
+
+
+@concrete.register("operands")
+def exec_operands(spec, env):
+    """C10: run spec['hist'] on a pool; afterwards every pooled object (and every object created on the way) must still
+    compare equal to, print as and evaluate like its twin in a pool on which only the creating operations were run."""
+    sm, E = rt.ns()
+    pts = _points(spec, env, sm)
+    objs = POOLS[spec["pool"]](E, env)
+    kept = {}
+    if spec.get("keep"):
+        # an expression returned to the caller, snapshotted before the originals are used further
+        t = objs[spec["keep"][1]]
+        kept["obj"] = sm.Partial(t, "x").as_expression() if spec["keep"][0] == "asexp" else t._normalize()
+        kept["repr"] = repr(kept["obj"])
+    for op in spec["hist"]:
+        run_op(op, objs, pts, sm, E)
+    fobjs = POOLS[spec["pool"]](E, env)
+    for op in spec["hist"]:
+        if op[0] in CREATORS:
+            run_op(op, fobjs, pts, sm, E)
+    outs = []
+    for name in sorted(fobjs):
+        a, b = objs[name], fobjs[name]
+        outs.append(rt.outcome(lambda: repr(a)))
+        outs.append(rt.outcome(lambda: repr(b)))
+        outs.append(rt.outcome(lambda: bool(a == b) and bool(b == a) and (hash(a) == hash(b) if spec.get("hash", True) else True)))
+        if isinstance(a, sm.Expression):
+            outs.append(rt.outcome(lambda: a.at(pts["p"])))
+            outs.append(rt.outcome(lambda: b.at(pts["p"])))
+            outs.append(rt.outcome(lambda: a.at(env["p_x"])))      # bare number: accepted iff the object still mentions <= 1 variable
+            outs.append(rt.outcome(lambda: b.at(env["p_x"])))
+        else:
+            outs += [{"kind": "value", "value": 0}] * 4
+    if kept:
+        outs.append(rt.outcome(lambda: repr(kept["obj"])))
+        outs.append({"kind": "value", "value": kept["repr"]})
+        outs.append({"kind": "value", "value": True})
+        outs += [{"kind": "value", "value": 0}] * 4
+    return outs
+
+
+@concrete.register("listutil")
+def exec_listutil(spec, env):
+    """C10: the copy-on-write list helpers with an arbitrary integer index"""
+    import smoothmath._private.utilities as util
+    n = spec["length"]
+    entries = [f"e{k}" for k in range(n)]
+    before = list(entries)
+    i = env["i"]
+    if spec["fn"] == "without":
+        o = rt.outcome(lambda: util.list_without_entry_at(entries, i))
+    else:
+        o = rt.outcome(lambda: util.list_with_updated_entry_at(entries, i, "NEW"))
+    outs = [o]
+    outs.append({"kind": "value", "value": entries == before})                       # input list unchanged
+    outs.append({"kind": "value", "value": o["kind"] == "value" and o["value"] is not entries})   # a new list object
+    return outs
+
+
+@concrete.register("pointdict")
+def exec_pointdict(spec, env):
+    """C10: mutating the caller's dict after Point(**kw) does not change the point"""
+    sm, E = rt.ns()
+    kw = {"x": env["x"], "y": env["y"]}
+    p = sm.Point(**kw)
+    e = E.Add(E.Multiply(E.Variable("x"), E.Variable("y")), E.Variable("x"))
+    o1 = rt.outcome(lambda: e.at(p))
+    kw["x"] = env["x2"]
+    kw["z"] = env["x2"]
+    del kw["y"]
+    o2 = rt.outcome(lambda: e.at(p))
+    o3 = rt.outcome(lambda: bool(p == sm.Point(x=env["x"], y=env["y"])) and repr(p) == repr(sm.Point(x=env["x"], y=env["y"])))
+    return [o1, o2, o3]
